@@ -41,8 +41,7 @@ def mc_jobs(ctx):
     # top of a file being loaded; contents whose top level fails after their definitions
     jobs.append(("modules", {"DeclSet": "{7, 8}", "Ctx": '{"c1", "c3", "c4"}', "Name": '{"f"}', "Vias": '{"exec", "run"}', "MaxGen": 3,
                              "MaxSteps": 3 if q else 4, "SubSet": '{"dm"}' if q else '{"dm", "legacy"}',
-                             "Acts": (acts("import", "fail", "reload", "close", "define", "del", "fire", "unload") if q else
-                                      acts("import", "fail", "reload", "close", "define", "del", "fire", "set", "call", "unload"))},
+                             "Acts": acts("import", "fail", "reload", "close", "define", "del", "fire", "unload")},
                  inv, prop, None))
     # deviation flags: the invariant each one violates
     jobs.append(("flag:session-import-module-not-started",
@@ -63,6 +62,10 @@ def mc_jobs(ctx):
                                                      "MaxSteps": 2, "Vias": '{"run"}', "Acts": acts("define", "push")}, inv, prop,
          {"ActiveIffReferencedAndLoaded"}),
     ]
+    if q:       # quick tier: only the deviations still present in the code under test (every TLC run costs a JVM start);
+        # the configurations of the repaired ones (known_findings.jsonl: fixed) are checked in the thorough tier
+        live = ("flag:service-handler-not-repointed", "flag:session-import-module-not-started")
+        jobs = [j for j in jobs if not j[0].startswith("flag:") or j[0] in live]
     for w in ("W_NoUnloadAfterActivity", "W_NoShutdownRun", "W_NoClosureHeld"):
         jobs.append((w, {"DeclSet": "{7}", "Name": '{"f"}', "MaxSteps": 4, "Acts": acts("define", "del", "push", "unload")},
                      [w], [], {w}))
